@@ -13,6 +13,9 @@ finite tables the code denotes (no execution):
     every escape sequence it emits is an arm of the readers' escape tables mapping back to the byte.
  S2 reader escape tables contain the ISO 32000-1 Table 3 escapes with the right values and octal.
  F1 reals: the value formatted in a Real arm is guarded by a finiteness test.
+ S3 octal escapes are three digits: wherever a serialiser or escaper formats a byte as an octal escape (`\\{:o}`), the format
+    is zero-padded to width 3 (`{:03o}`): a reader consumes up to three octal digits, so a shorter escape followed by a digit
+    0..7 of the text decodes to a different byte (`\\0` + `7` -> `\\07`).
  G1 references: the Reference arm of every serialiser formats two run-time values before ` R` — the object number *and* the
     generation (a constant generation reads back as a different reference; all siblings agree).
  X1 sibling agreement: all serialisers of the object model satisfy the above alike.
@@ -93,6 +96,36 @@ def real_guarded(facts, fn, lo, hi):
             if L.calls_to(f, ["is_finite", "finite_or_zero", "is_nan", "is_infinite"]):
                 return True
     return False
+
+
+def check_octal_escapes(ctx, rule="S3"):
+    """every Octal placeholder that follows a backslash in a format template of the crate's writers is {:03o}"""
+    facts = ctx.facts
+    n = 0
+    for s_ in facts.fmts:
+        tpl = s_["tpl"]
+        for i, p_ in enumerate(tpl):
+            if not (isinstance(p_, dict) and p_.get("tr") == "Octal"):
+                continue
+            prev = tpl[i - 1] if i > 0 and isinstance(tpl[i - 1], str) else ""
+            if not prev.endswith("\\"):
+                continue
+            fn = TK._owner_fn(facts, s_)
+            owner = (fn.parent or fn.id) if fn is not None else s_["file"]
+            if owner.startswith("parser::") or "::tests::" in owner:
+                continue
+            n += 1
+            key = "octal-escape:%s" % owner
+            where = "%s:%d" % (s_["file"], s_["line"])
+            if p_.get("w") == 3 and p_.get("zero"):
+                ctx.ok(rule, key, "\\{:03o}", where)
+            else:
+                ctx.violation(rule, key, "%s writes a byte as an octal escape with fewer than three fixed digits (`\\{:o}`, width %s): a "
+                              "literal-string reader takes up to three octal digits, so when the next character of the text is `0`..`7` "
+                              "it is absorbed into the escape and a different byte is read back (`rev\\07` for NUL followed by `7`)"
+                              % (L.short(owner), p_.get("w")), where)
+    ctx.counts["%s:octal escape sites" % rule] = n
+    return n
 
 
 def check_readers(ctx, rule_prefix=""):
@@ -299,6 +332,7 @@ def check_serializers(ctx, readers, rules=("N1", "N2", "S1", "F1")):
 
 
 def run(ctx):
+    check_octal_escapes(ctx)
     readers = check_readers(ctx)
     check_serializers(ctx, readers)
     # sibling tokenisers: note only (reader leniency is not part of the property)
